@@ -31,6 +31,9 @@ package hessian
 //@   assigns @pos, @E, @declared, d.typList
 //@   ensures [C03:type-table-grows] len(d.typList) >= len(old(d.typList)) && len(d.typList) <= len(old(d.typList)) + 1
 //@   proves  [C03,C14:type-ref-in-table] err == nil && !G.isStr(tag) ==> 0 <= index && index < len(d.typList)
+//@   proves  [C03:type-literal-registered] err == nil && G.isStr(tag) ==> len(d.typList) == len(old(d.typList)) + 1 && d.typList[len(old(d.typList))] == result0
+//@   proves  [C03:type-table-prefix] forall k int :: 0 <= k && k < len(old(d.typList)) ==> d.typList[k] == old(d.typList)[k]
+//@   proves  [C03:type-ref-resolves] err == nil && !G.isStr(tag) ==> len(d.typList) == len(old(d.typList)) && index == int(G.decIntT(tag, @in, old(@pos) + 1)) && result0 == old(d.typList)[index]
 
 //@ func (*Decoder).readClassDef
 //@   assigns @pos, @E, @declared
